@@ -225,7 +225,7 @@ func (g *projGen) perturb(m *pMethod, structNames []string) string {
 		}
 	}
 	kinds := []string{"add-unbound-param", "add-url-param", "results-none", "results-three", "results-nonerror", "verb-invalid", "verb-unsupported", "unknown-annotation", "bad-status",
-		"verb-case", "dup-path-alias", "swap-path-alias", "prefix-url-param", "alias-steals-variable", "second-route", "alias-collides-with-name"}
+		"verb-case", "dup-path-alias", "swap-path-alias", "prefix-url-param", "alias-steals-variable", "second-route", "alias-collides-with-name", "warn-prop-and-error"}
 	if len(bindIdx) > 0 {
 		kinds = append(kinds, "drop-annot", "dup-annot", "rename-annot-value", "retype-struct", "retype-slice", "bad-alias", "annot-no-value")
 	}
@@ -326,6 +326,20 @@ func (g *projGen) perturb(m *pMethod, structNames []string) string {
 	case "verb-invalid":
 		if methodIdx >= 0 {
 			m.Annots[methodIdx].Value = "FETCH"
+		}
+	case "warn-prop-and-error":
+		// an annotation that draws a WARNING for a property and an ERROR of its own: both must be reported (the error
+		// is the only guard of "the verb is supported" / "a parameter is referenced by one annotation")
+		if methodIdx >= 0 && (len(bindIdx) == 0 || r.Bool()) {
+			m.Annots[methodIdx].Value = rng.Pick(r, []string{"FETCH", "OPTIONS"})
+			m.Annots[methodIdx].Props = map[string]any{"idempotent": true}
+		} else if len(bindIdx) > 0 {
+			i := rng.Pick(r, bindIdx)
+			kind := "Header"
+			if m.Annots[i].Name == "Header" {
+				kind = "Query"
+			}
+			m.Annots = append(m.Annots, pAnnot{Name: kind, Value: m.Annots[i].Value, Props: map[string]any{"nmae": "t"}})
 		}
 	case "verb-unsupported":
 		if methodIdx >= 0 {
